@@ -78,6 +78,22 @@ CHECKS = {
         text="Environment x importable-module sets x infer_from_env -> Config(); attribute assignments; per-call backend argument (none, six names, unknown, class) observed through substituted solver modules / executable; every graph helper x explicit argument x flags x acyclic observed through the emitted program. Invariants: DefaultsSound, AcyclicNeverNative, ExplicitWins, ArgWins.",
         note="module availability simulated via sys.modules; sugar vs sugar_extended distinguished by the answer-key line",
         ref="DESIGN.md 5 C20"),
+    "C15": dict(
+        technique="TLA+ transcription of every combinator as cursor-threading Ser/Des operators (Serializer.tla); TLC checks RoundTrips on it and enumerates (term, board, value) cases; real round trips judged by TLC (Trace_Serializer)",
+        text="Sequences/grids over boundary alphabets (15/16/255/256/4095, run lengths 19/20/21/40 around the one-character limit, partial digit groups), tuples, nested alternatives, every connected room partition of boards up to 2x3 (3x3 thorough) incl. 1xN/Nx1 in four orderings of rooms and cells, valued rooms: decoded = value (rooms up to canonical order with values attached) and consumed = produced length, judged by TLC on what the real code did; the transcription's text is compared with the real text as a diagnostic (identical in all cases).",
+        note="trusted: TLC, the term builder (harness/ser_terms.py); OneOf alternatives distinguishable by leading character; Seq/Grid over item-consuming bases",
+        ref="DESIGN.md 5 C15"),
+    "C16": dict(
+        technique="independent pzpr decoders in TLA+ (Pzpr.tla); TLC enumerates problems (MC_Url) and judges the real codecs' URLs (Trace_Url)",
+        text="All problems over each module's clue alphabet on boards up to 2x3 (+ long rows), all connected room partitions, compass clue subsets, for the 12 codec modules: real decode(encode(p)) = p with dimensions; name/width/height in puzz.link order; the independent decoder reads the body back as p; legacy helper encoders and combinator codecs give identical text.",
+        note="trusted: Pzpr.tla (written from the pzpr format), the integer projection in harness/url_codecs.py",
+        ref="DESIGN.md 5 C16"),
+    "C17": dict(
+        technique="TLC enumerates ALL strings up to a length over a branch-covering alphabet (MC_Fuzz); decoders' outcome classes judged by TLC (Trace_Fuzz)",
+        text="Every string of length <=4 (thorough <=5) over {0,5,f,g,z,-,+,.,/,U+0663} as body for 9 URL decoders + compass with several declared sizes, as input to 16 library combinators (sizes incl. zero, every offset), URL-frame mutilations, 60x60 / 1x400 / 400x1 boards: outcome must be None, ValueError, or a problem of the stated size that re-encodes and re-decodes to itself.",
+        category="exploration",
+        note="bounded-exhaustive input enumeration (not a proof about all strings); None/ValueError classified by the harness, all other outcomes judged by TLC",
+        ref="DESIGN.md 5 C17"),
 }
 
 NOT_APPLICABLE = {}
